@@ -1,14 +1,45 @@
 import Log4rsModel.ConfigDoc.Lemmas
 /-
-The document rendered from a logical configuration loads to its meaning — the routing part (refresh
-rate, root, loggers) for every configuration, canonical key order, every subset of optional keys.
+The document rendered from a logical configuration (canonical key order, every subset of optional
+keys) is typed section by section as written down here (`typed…`), and the constructors turn the
+typed sections into exactly the components `meaning` prescribes.
 -/
 namespace Log4rs.ConfigDoc
 open Log4rs Log4rs.Literals Log4rs.Routing
 
+/-! ### leaves -/
+
 theorem interpLeaf_str (s : List Char) : interpLeaf .str (.str s) = .ok (.str s) := rfl
 
 theorem interpLeaf_bool (b : Bool) : interpLeaf .bool (.bool b) = .ok (.bool b) := rfl
+
+theorem interpLeaf_level {s : List Char} {n : Nat} (h : parseLevel s = some n) :
+    interpLeaf .level (.str s) = .ok (.level n) := by
+  simp only [interpLeaf, h]
+
+theorem interpLeaf_u64 {n : Nat} (h : n ≤ U64_MAX) : interpLeaf .u64 (.int n) = .ok (.nat n) := by
+  simp [interpLeaf, h]
+
+theorem interpLeaf_u32 {n : Nat} (h : n ≤ U32_MAX) : interpLeaf .u32 (.int n) = .ok (.nat n) := by
+  simp [interpLeaf, h]
+
+theorem interpLeaf_target (b : Bool) : interpLeaf .target (renderTarget b) = .ok (.target b) := by
+  cases b <;> simp [interpLeaf, renderTarget]
+
+theorem toScalar_scalarValue (l : Scalar) (h : l ≠ .other) : (scalarValue l).toScalar = l := by
+  cases l <;> first | rfl | exact absurd rfl h
+
+theorem interpLeaf_size {l : Scalar} {n : Nat} (h : parseSize l = .ok n) :
+    interpLeaf .size (scalarValue l) = .ok (.nat n) := by
+  have hl : l ≠ .other := by intro e; subst e; simp [parseSize, Scalar.visit, visitSize, toExcept] at h
+  simp only [interpLeaf, toScalar_scalarValue l hl, h]
+
+theorem interpLeaf_interval {l : Scalar} {u : TUnit} {n : Int} (h : parseInterval l = .ok (u, n)) :
+    interpLeaf .interval (scalarValue l) = .ok (.interval u n) := by
+  have hl : l ≠ .other := by intro e; subst e; simp [parseInterval, Scalar.visit, visitInterval, toExcept] at h
+  simp only [interpLeaf, toScalar_scalarValue l hl, h]
+
+/-! ### names -/
 
 theorem mapVals_names (ns : List Key) :
     mapVals (fun v => interpLeaf .str v) (ns.map .str) = .ok (ns.map .str) := by
@@ -16,20 +47,13 @@ theorem mapVals_names (ns : List Key) :
   | nil => rfl
   | cons n ns ih => simp only [List.map_cons, mapVals, interpLeaf_str, ih]
 
-theorem interp_names (ss : Bool) (ns : List Key) :
-    interp ss namesS (renderNames ns) = .ok (.list (ns.map .str)) := by
-  simp only [namesS, renderNames, interp, mapVals_names]
-
-theorem interpLeaf_level {s : List Char} {n : Nat} (h : parseLevel s = some n) :
-    interpLeaf .level (.str s) = .ok (.level n) := by
-  simp only [interpLeaf, h]
-
 theorem strs_names (ns : List Key) : Typed.strs (ns.map Typed.str) = ns := by
   induction ns with
   | nil => rfl
   | cons n ns ih => simp only [List.map_cons, Typed.strs, List.filterMap_cons] at ih ⊢; rw [ih]
 
-/-- typed form of a logger section -/
+/-! ### loggers and root -/
+
 def typedLogger (l : LoggerL) : Typed :=
   .record [(c!"level", .level ((parseLevel l.level).getD 0)),
     (c!"appenders", .list ((l.appenders.getD []).map .str)),
@@ -41,8 +65,8 @@ theorem interp_logger (ss : Bool) (l : LoggerL) (h : (parseLevel l.level).isSome
   obtain ⟨name, level, additive, appenders⟩ := l
   simp only at hn
   cases additive <;> cases appenders <;>
-    simp [loggerS, namesS, renderNames, renderLogger, typedLogger, optEntry, interp, interpFields, unknownKey, interpLeaf_level hn,
-      fieldNames, req, dfl, lookup, hn, mapVals_names, interpLeaf_bool]
+    simp [loggerS, namesS, renderNames, renderLogger, typedLogger, optEntry, interp, interpFields, unknownKey,
+      interpLeaf_level hn, fieldNames, req, dfl, lookup, hn, mapVals_names, interpLeaf_bool]
 
 theorem loggerOf_typed (l : LoggerL) : loggerOf l.name (typedLogger l) = meaningLogger l := by
   simp [loggerOf, typedLogger, meaningLogger, Typed.field, tlookup, Typed.asLevel, Typed.asBool,
@@ -65,7 +89,6 @@ theorem loggers_of_typed (ls : List LoggerL) :
   | nil => rfl
   | cons l ls ih => simp only [List.map_cons, loggerOf_typed, ih]
 
-/-- typed form of a root section -/
 def typedRoot (r : RootL) : Typed :=
   .record [(c!"level", .level ((r.level.bind parseLevel).getD 4)),
     (c!"appenders", .list ((r.appenders.getD []).map .str))]
@@ -81,88 +104,553 @@ theorem interp_root (ss : Bool) (r : RootL) (h : ∀ t, r.level = some t → (pa
   | some t =>
     obtain ⟨n, hn⟩ := Option.isSome_iff_exists.mp (h t rfl)
     cases appenders <;>
-      simp [rootS, namesS, renderNames, renderRoot, typedRoot, optEntry, interp, interpFields, unknownKey, interpLeaf_level hn,
-        fieldNames, dfl, lookup, hn, mapVals_names]
+      simp [rootS, namesS, renderNames, renderRoot, typedRoot, optEntry, interp, interpFields, unknownKey,
+        interpLeaf_level hn, fieldNames, dfl, lookup, hn, mapVals_names]
 
-theorem interp_refresh (ss : Bool) (t : List Char) (n : Nat) (h : parseDuration t = some n) :
-    interp ss (.opt (.leaf .duration)) (.str t) = .ok (.just (.duration n)) := by
-  simp only [interp, interpLeaf, h]
+/-! ### filters -/
 
-theorem interp_loggers (ss : Bool) (ls : List LoggerL) (h : ∀ l ∈ ls, (parseLevel l.level).isSome) :
-    interp ss (.mapOf loggerS) (.map (ls.map (fun l => (l.name, renderLogger l)))) =
-      .ok (.dict (ls.map (fun l => (l.name, typedLogger l)))) := by
-  simp only [interp, mapEntries_loggers ss ls h]
+def typedFilter (t : List Char) : Typed :=
+  .tagged (c!"threshold") []
+    (match parseLevel t with
+     | some n => .record [(c!"level", .level n)]
+     | none => .failed .unknownVariant)
 
-theorem typedRoot_level (r : RootL) :
-    (Typed.asLevel ((typedRoot r).field (c!"level"))).getD 4 = (r.level.bind parseLevel).getD 4 := by
-  simp [typedRoot, Typed.field, tlookup, Typed.asLevel]
+theorem interp_filter (ss : Bool) (t : List Char) :
+    interp ss (.lazy filterS) (renderFilter t) = .ok (typedFilter t) := by
+  cases h : parseLevel t with
+  | some n =>
+    simp [filterS, thresholdS, renderFilter, typedFilter, interp, interpCases, interpFields, kindOf,
+      lookup, without, fieldNames, req, interpLeaf_level h, h]
+  | none =>
+    simp [filterS, thresholdS, renderFilter, typedFilter, interp, interpCases, interpFields, kindOf,
+      lookup, without, fieldNames, req, interpLeaf, h]
 
-theorem typedRoot_appenders (r : RootL) :
-    Typed.strs (Typed.asList ((typedRoot r).field (c!"appenders"))) = r.appenders.getD [] := by
-  simp [typedRoot, Typed.field, tlookup, Typed.asList, strs_names]
+theorem filterOutcome_typed (t : List Char) : filterOutcome (typedFilter t) = parseLevel t := by
+  cases h : parseLevel t with
+  | some n => simp [typedFilter, h, filterOutcome, Typed.field, tlookup, Typed.asLevel]
+  | none => simp [typedFilter, h, filterOutcome]
 
-/-- the routing part: a logical configuration without appender table, rendered with any subset of
-its optional keys, loads (lossy pipeline up to the builder input) to exactly its meaning -/
-theorem loadRaw_render_routing (ss : Bool) (cfg : LogicalConfig)
-    (happ : cfg.appenders = [])
-    (hl : ∀ l ∈ cfg.loggers, (parseLevel l.level).isSome)
-    (hroot : ∀ r t, cfg.root = some r → r.level = some t → (parseLevel t).isSome)
-    (hrr : ∀ t, cfg.refresh = some t → (parseDuration t).isSome) :
-    loadRaw ss (render cfg) = .ok (meaning cfg) := by
+theorem mapVals_filters (ss : Bool) (fs : List (List Char)) :
+    mapVals (fun v => interp ss (.lazy filterS) v) (fs.map renderFilter) = .ok (fs.map typedFilter) := by
+  induction fs with
+  | nil => rfl
+  | cons f fs ih => simp only [List.map_cons, mapVals, interp_filter, ih]
+
+theorem filterMap_typed (fs : List (List Char)) :
+    (fs.map typedFilter).filterMap filterOutcome = fs.filterMap parseLevel := by
+  induction fs with
+  | nil => rfl
+  | cons f fs ih =>
+    simp only [List.map_cons, List.filterMap_cons, filterOutcome_typed, ih]
+
+theorem filterErrs_typed (name : Key) (fs : List (List Char)) :
+    ((fs.map typedFilter).filter (fun f => (filterOutcome f).isNone)).map (fun _ => LoadErr.filter name) =
+      (fs.filter (fun t => (parseLevel t).isNone)).map (fun _ => LoadErr.filter name) := by
+  induction fs with
+  | nil => rfl
+  | cons f fs ih =>
+    simp only [List.map_cons, List.filter_cons, filterOutcome_typed]
+    split <;> simp [ih]
+
+/-! ### encoder -/
+
+def typedEnc (e : EncL) : Typed :=
+  if e.isJson then .tagged (c!"json") [] (.record [])
+  else .tagged (c!"pattern") []
+    (.record [(c!"pattern", match e.pattern with
+                            | some i => .just (.str (patternText i))
+                            | none => .nothing)])
+
+theorem interp_enc (ss : Bool) (e : EncL) (h : encOk (some e) = true) :
+    interp ss encoderS (renderEnc e) = .ok (typedEnc e) := by
+  obtain ⟨ke, js, pat⟩ := e
+  cases ke <;> cases js <;> cases pat <;>
+    first
+    | (exfalso; revert h; simp [encOk, EncL.isJson]; done)
+    | simp [encoderS, patternEncoderS, jsonEncoderS, renderEnc, typedEnc, EncL.isJson, optEntry, interp,
+        interpCases, interpFields, kindOf, lookup, without, fieldNames, optF, unknownKey, interpLeaf_str]
+
+theorem constructEncoder_typed (env : Env) (hp : ∀ s, env.patternNew s = .ok ()) (e : Option EncL) :
+    constructEncoder env (e.map typedEnc) = .ok (meaningEnc e) := by
+  cases e with
+  | none => simp [constructEncoder, meaningEnc, hp, Outcome.andThen]
+  | some e =>
+    obtain ⟨ke, js, pat⟩ := e
+    cases ke <;> cases js <;> cases pat <;>
+      simp [constructEncoder, meaningEnc, typedEnc, EncL.isJson, hp, Outcome.andThen, Typed.optField,
+        Typed.field, tlookup, Typed.asStr]
+
+/-- the typed `Option<EncoderConfig>` field -/
+def typedOptEnc (e : Option EncL) : Typed :=
+  match e with
+  | some e => .just (typedEnc e)
+  | none => .nothing
+
+/-! ### trigger, roller, policy -/
+
+def typedTrig : TrigL → Typed
+  | .size l => .tagged (c!"size") [] (.record [(c!"limit", .nat ((parseSize l).toOption.getD 0))])
+  | .time i m d =>
+    .tagged (c!"time") []
+      (.record [(c!"interval", match (parseInterval i).toOption with
+                               | some (u, n) => .interval u n
+                               | none => .nothing),
+                (c!"modulate", .bool (m.getD false)), (c!"max_random_delay", .nat (d.getD 0))])
+  | .onstartup m => .tagged (c!"onstartup") [] (.record [(c!"min_size", .nat (m.getD 1))])
+
+theorem interp_trig (ss : Bool) (tr : TrigL) (td : TrigDesc) (h : meaningTrig tr = some td) :
+    interp ss triggerS (renderTrig tr) = .ok (typedTrig tr) := by
+  cases tr with
+  | size l =>
+    cases hp : parseSize l with
+    | error e => simp [meaningTrig, hp, Except.toOption] at h
+    | ok n =>
+      simp [triggerS, sizeTriggerS, renderTrig, typedTrig, interp, interpCases, interpFields, kindOf,
+        lookup, without, fieldNames, req, unknownKey, interpLeaf_size hp, hp, Except.toOption]
+  | time i m d =>
+    cases hp : parseInterval i with
+    | error e => simp [meaningTrig, hp, Except.toOption] at h
+    | ok un =>
+      obtain ⟨u, n⟩ := un
+      have hd : d.getD 0 ≤ U64_MAX := by
+        simp only [meaningTrig, hp, Except.toOption] at h
+        split at h
+        · assumption
+        · cases h
+      cases d with
+      | none =>
+        cases m <;>
+          simp [triggerS, timeTriggerS, renderTrig, typedTrig, interp, interpCases, interpFields, kindOf,
+            lookup, without, fieldNames, req, dfl, optEntry, unknownKey, interpLeaf_interval hp, hp,
+            Except.toOption, interpLeaf_bool]
+      | some dv =>
+        have hdv : dv ≤ U64_MAX := by simpa using hd
+        cases m <;>
+          simp [triggerS, timeTriggerS, renderTrig, typedTrig, interp, interpCases, interpFields, kindOf,
+            lookup, without, fieldNames, req, dfl, optEntry, unknownKey, interpLeaf_interval hp, hp,
+            Except.toOption, interpLeaf_bool, interpLeaf_u64 hdv]
+  | onstartup m =>
+    cases m with
+    | none =>
+      simp [triggerS, onStartUpTriggerS, renderTrig, typedTrig, interp, interpCases, interpFields, kindOf,
+        lookup, without, fieldNames, dfl, optEntry, unknownKey]
+    | some mv =>
+      have hm : mv ≤ U64_MAX := by
+        simp only [meaningTrig, Option.getD_some] at h
+        split at h
+        · assumption
+        · cases h
+      simp [triggerS, onStartUpTriggerS, renderTrig, typedTrig, interp, interpCases, interpFields, kindOf,
+        lookup, without, fieldNames, dfl, optEntry, unknownKey, interpLeaf_u64 hm]
+
+theorem constructTrigger_typed (env : Env) (ht : ∀ u n m d, env.timeNew u n m d = .ok ())
+    (tr : TrigL) (td : TrigDesc) (h : meaningTrig tr = some td) :
+    constructTrigger env (typedTrig tr) = .ok td := by
+  cases tr with
+  | size l =>
+    cases hp : parseSize l with
+    | error e => simp [meaningTrig, hp, Except.toOption] at h
+    | ok n =>
+      simp only [meaningTrig, hp, Except.toOption, Option.map_some, Option.some.injEq] at h
+      subst h
+      simp [constructTrigger, typedTrig, hp, Except.toOption, Typed.field, tlookup, Typed.asNat]
+  | time i m d =>
+    cases hp : parseInterval i with
+    | error e => simp [meaningTrig, hp, Except.toOption] at h
+    | ok un =>
+      obtain ⟨u, n⟩ := un
+      simp only [meaningTrig, hp, Except.toOption] at h
+      split at h
+      · simp only [Option.some.injEq] at h
+        subst h
+        simp [constructTrigger, typedTrig, hp, Except.toOption, Typed.field, tlookup, Typed.asNat,
+          Typed.asBool, ht, Outcome.andThen]
+      · cases h
+  | onstartup m =>
+    simp only [meaningTrig] at h
+    split at h
+    · simp only [Option.some.injEq] at h
+      subst h
+      simp [constructTrigger, typedTrig, Typed.field, tlookup, Typed.asNat]
+    · cases h
+
+def typedRoll (path : Key) : RollL → Typed
+  | .delete => .tagged (c!"delete") [] (.record [])
+  | .window b n =>
+    .tagged (c!"fixed_window") []
+      (.record [(c!"pattern", .str (path ++ c!".{}")),
+                (c!"base", match b with | some x => .just (.nat x) | none => .nothing),
+                (c!"count", .nat n)])
+
+theorem interp_roll (ss : Bool) (path : Key) (ro : RollL) (rd : RollDesc)
+    (h : meaningRoll path ro = some rd) :
+    interp ss rollerS (renderRoll path ro) = .ok (typedRoll path ro) := by
+  cases ro with
+  | delete =>
+    simp [rollerS, deleteRollerS, renderRoll, typedRoll, interp, interpCases, interpFields, kindOf,
+      lookup, without, fieldNames, unknownKey]
+  | window b n =>
+    simp only [meaningRoll] at h
+    split at h
+    · rename_i hc
+      obtain ⟨hb, hn, _⟩ := hc
+      cases b with
+      | none =>
+        simp [rollerS, fixedWindowRollerS, renderRoll, typedRoll, interp, interpCases, interpFields, kindOf,
+          lookup, without, fieldNames, req, optF, optEntry, unknownKey, interpLeaf_str, interpLeaf_u32 hn]
+      | some bv =>
+        have hbv : bv ≤ U32_MAX := by simpa using hb
+        simp [rollerS, fixedWindowRollerS, renderRoll, typedRoll, interp, interpCases, interpFields, kindOf,
+          lookup, without, fieldNames, req, optF, optEntry, unknownKey, interpLeaf_str, interpLeaf_u32 hn,
+          interpLeaf_u32 hbv]
+    · cases h
+
+theorem containsBraces_append (p : List Char) : containsBraces (p ++ c!".{}") = true := by
+  induction p with
+  | nil => rfl
+  | cons c r ih => simp only [List.cons_append, containsBraces, ih, Bool.or_true]
+
+theorem constructRoller_typed (path : Key) (ro : RollL) (rd : RollDesc)
+    (h : meaningRoll path ro = some rd) : constructRoller (typedRoll path ro) = .ok rd := by
+  cases ro with
+  | delete =>
+    simp only [meaningRoll, Option.some.injEq] at h
+    subst h
+    simp [constructRoller, typedRoll]
+  | window b n =>
+    simp only [meaningRoll] at h
+    split at h
+    · rename_i hc
+      obtain ⟨_, _, hw⟩ := hc
+      simp only [Option.some.injEq] at h
+      subst h
+      have hnot : ¬ (n > 0 ∧ b.getD 0 + (n - 1) > U32_MAX) := by
+        rintro ⟨h1, h2⟩
+        rcases hw with h0 | h0 <;> omega
+      cases b <;>
+        simp [constructRoller, typedRoll, Typed.field, Typed.optField, tlookup, Typed.asStr, Typed.asNat,
+          containsBraces_append] <;> simpa using hnot
+    · cases h
+
+def typedPolicy (path : Key) (tr : TrigL) (ro : RollL) : Typed :=
+  .tagged (c!"compound") [] (.record [(c!"trigger", typedTrig tr), (c!"roller", typedRoll path ro)])
+
+theorem interp_policy (ss : Bool) (path : Key) (pk : Bool) (tr : TrigL) (ro : RollL)
+    (td : TrigDesc) (rd : RollDesc) (ht : meaningTrig tr = some td) (hr : meaningRoll path ro = some rd) :
+    interp ss policyS (renderPolicy pk path tr ro) = .ok (typedPolicy path tr ro) := by
+  have h1 := interp_trig ss tr td ht
+  have h2 := interp_roll ss path ro rd hr
+  cases pk <;>
+    simp [policyS, compoundPolicyS, renderPolicy, typedPolicy, interp, interpCases, interpFields, kindOf,
+      lookup, without, fieldNames, req, unknownKey, h1, h2]
+
+theorem constructPolicy_typed (env : Env) (ht : ∀ u n m d, env.timeNew u n m d = .ok ())
+    (path : Key) (tr : TrigL) (ro : RollL) (td : TrigDesc) (rd : RollDesc)
+    (h1 : meaningTrig tr = some td) (h2 : meaningRoll path ro = some rd) :
+    constructPolicy env (some (typedPolicy path tr ro)) = .ok (td, rd) := by
+  simp [constructPolicy, typedPolicy, Typed.field, tlookup, constructTrigger_typed env ht tr td h1,
+    constructRoller_typed path ro rd h2, Outcome.andThen]
+
+/-! ### appenders -/
+
+theorem interp_filters (ss : Bool) (fs : List (List Char)) :
+    interp ss (.seqOf (.lazy filterS)) (renderFilters fs) = .ok (.list (fs.map typedFilter)) := by
+  simp only [renderFilters, interp]
+  have := mapVals_filters ss fs
+  simp only [interp] at this
+  rw [this]
+
+theorem interp_opt_enc (ss : Bool) (e : EncL) (h : encOk (some e) = true) :
+    interp ss (.opt encoderS) (renderEnc e) = .ok (.just (typedEnc e)) := by
+  have h1 := interp_enc ss e h
+  have hm : ∃ kvs, renderEnc e = .map kvs := ⟨_, rfl⟩
+  obtain ⟨kvs, hk⟩ := hm
+  rw [hk] at h1 ⊢
+  simp only [interp, h1]
+
+theorem interp_opt_target (ss : Bool) (b : Bool) :
+    interp ss (.opt (.leaf .target)) (renderTarget b) = .ok (.just (.target b)) := by
+  have h := interpLeaf_target b
+  cases b <;> simp [renderTarget, interp, interpLeaf]
+
+def typedOptBool : Option Bool → Typed
+  | some b => .just (.bool b)
+  | none => .nothing
+
+def typedOptTarget : Option Bool → Typed
+  | some b => .just (.target b)
+  | none => .nothing
+
+def typedBody (a : AppL) : Typed :=
+  if a.kind = 0 then
+    .record [(c!"target", typedOptTarget a.target), (c!"encoder", typedOptEnc a.enc),
+             (c!"tty_only", typedOptBool a.flag)]
+  else if a.kind = 1 then
+    .record [(c!"path", .str a.path), (c!"encoder", typedOptEnc a.enc), (c!"append", typedOptBool a.flag)]
+  else
+    .record [(c!"path", .str a.path), (c!"append", typedOptBool a.flag), (c!"encoder", typedOptEnc a.enc),
+             (c!"policy", typedPolicy a.path a.trig a.roll)]
+
+def typedApp (a : AppL) : Typed :=
+  .tagged (kindName a.kind) [(c!"filters", .list ((a.filters.getD []).map typedFilter))] (typedBody a)
+
+/-- well-formed appender section: a known kind; a json encoder without pattern; for a rolling
+appender numbers that are acceptable (`meaningTrig`, `meaningRoll`) -/
+def wfApp (a : AppL) : Prop :=
+  a.kind ≤ 2 ∧ encOk a.enc = true ∧
+  (a.kind = 2 → (meaningTrig a.trig).isSome ∧ (meaningRoll a.path a.roll).isSome)
+
+theorem interp_app (ss : Bool) (a : AppL) (h : wfApp a) :
+    interp ss (.lazy appenderLazyS) (renderApp a) = .ok (typedApp a) := by
+  obtain ⟨hk, he, hp⟩ := h
+  obtain ⟨name, kind, filters, path, flag, enc, target, pk, trig, roll⟩ := a
+  simp only at hk he hp
+  have hF := interp_filters ss
+  have hT := interp_opt_target ss
+  have hE : ∀ e, enc = some e → interp ss (.opt encoderS) (renderEnc e) = .ok (.just (typedEnc e)) :=
+    fun e h => interp_opt_enc ss e (h ▸ he)
+  match kind, hk with
+  | 0, _ =>
+    cases filters <;> cases flag <;> cases enc <;> cases target <;>
+      simp [renderApp, appenderLazyS, consoleAppenderS, typedApp, typedBody, typedOptEnc, typedOptBool,
+        typedOptTarget, kindName, optEntry, interp, interpFields, interpCases, kindOf, lookup, without,
+        fieldNames, dfl, optF, unknownKey, hF, hT, hE, interpLeaf_bool]
+  | 1, _ =>
+    cases filters <;> cases flag <;> cases enc <;>
+      simp [renderApp, appenderLazyS, fileAppenderS, typedApp, typedBody, typedOptEnc, typedOptBool,
+        kindName, optEntry, interp, interpFields, interpCases, kindOf, lookup, without,
+        fieldNames, dfl, optF, req, unknownKey, hF, hE, interpLeaf_bool, interpLeaf_str]
+  | 2, _ =>
+    obtain ⟨ht, hr⟩ := hp rfl
+    obtain ⟨td, htd⟩ := Option.isSome_iff_exists.mp ht
+    obtain ⟨rd, hrd⟩ := Option.isSome_iff_exists.mp hr
+    have hP := interp_policy ss path pk trig roll td rd htd hrd
+    cases filters <;> cases flag <;> cases enc <;>
+      simp [renderApp, appenderLazyS, rollingFileAppenderS, typedApp, typedBody, typedOptEnc, typedOptBool,
+        kindName, optEntry, interp, interpFields, interpCases, kindOf, lookup, without,
+        fieldNames, dfl, optF, req, unknownKey, hF, hE, hP, interpLeaf_bool, interpLeaf_str]
+
+/-- the environment of the check runs, abstractly: every path but the empty one can be opened, the
+pattern parser and the time trigger's constructor succeed -/
+def Env.Benign (env : Env) : Prop :=
+  (∀ p, env.openLog p = if fsOk p then .ok () else .err .badValue)
+  ∧ (∀ s, env.patternNew s = .ok ()) ∧ (∀ u n m d, env.timeNew u n m d = .ok ())
+
+def filterErrs (a : AppL) : List LoadErr :=
+  ((a.filters.getD []).filter (fun t => (parseLevel t).isNone)).map (fun _ => LoadErr.filter a.name)
+
+theorem optField_typedOptEnc (fs1 fs2 : List (Key × Typed)) (e : Option EncL)
+    (h : tlookup (c!"encoder") fs1 = none) :
+    (Typed.record (fs1 ++ (c!"encoder", typedOptEnc e) :: fs2)).optField (c!"encoder") = e.map typedEnc := by
+  have : tlookup (c!"encoder") (fs1 ++ (c!"encoder", typedOptEnc e) :: fs2) = some (typedOptEnc e) := by
+    induction fs1 with
+    | nil => simp [tlookup]
+    | cons x xs ih =>
+      obtain ⟨k, t⟩ := x
+      simp only [tlookup] at h ⊢
+      split at h
+      · cases h
+      · rename_i hk; simp only [List.cons_append, tlookup, hk, if_false]; exact ih h
+  simp only [Typed.optField, Typed.field, this]
+  cases e <;> rfl
+
+theorem asBool_typedOptBool (o : Option Bool) (d : Bool) :
+    (Typed.asBool (match typedOptBool o with | .just x => some x | _ => none)).getD d = o.getD d := by
+  cases o <;> rfl
+
+theorem appenderOutcome_typed (env : Env) (henv : env.Benign) (a : AppL) (d : AppenderDesc)
+    (hk : a.kind ≤ 2) (h : meaningApp a = some d) :
+    appenderOutcome env a.name (typedApp a) = (filterErrs a, .kept d) := by
+  obtain ⟨ho, hp, ht⟩ := henv
+  obtain ⟨name, kind, filters, path, flag, enc, target, pk, trig, roll⟩ := a
+  simp only at hk
+  have hE := constructEncoder_typed env hp enc
+  have hfm := filterMap_typed (filters.getD [])
+  have hfe := filterErrs_typed name (filters.getD [])
+  simp only [meaningApp] at h
+  match kind, hk with
+  | 0, _ =>
+    split at h
+    · cases h
+    · simp only [if_true, Option.some.injEq] at h
+      subst h
+      have hO := optField_typedOptEnc [(c!"target", typedOptTarget target)] [(c!"tty_only", typedOptBool flag)] enc rfl
+      simp only [List.cons_append, List.nil_append] at hO
+      simp only [appenderOutcome, typedApp, tlookup, if_true, Typed.asList, hfm, hfe, filterErrs, kindName,
+        typedBody, constructAppender, hO, hE, Outcome.andThen]
+      cases flag <;> cases target <;> rfl
+  | 1, _ =>
+    split at h
+    · cases h
+    · simp only [show ¬ ((1 : Nat) = 0) by decide, if_false] at h
+      split at h
+      · cases h
+      · rename_i hfs
+        simp only [if_true, Option.some.injEq] at h
+        subst h
+        have hfs' : fsOk path = true := by simpa using hfs
+        have hO := optField_typedOptEnc [(c!"path", .str path)] [(c!"append", typedOptBool flag)] enc rfl
+        simp only [List.cons_append, List.nil_append] at hO
+        have hne : ¬ (c!"file" = c!"console") := by decide
+        simp only [appenderOutcome, typedApp, tlookup, if_true, Typed.asList, hfm, hfe, filterErrs, kindName,
+          typedBody, show ¬ ((1 : Nat) = 0) by decide, if_false, constructAppender, hO, hE, Outcome.andThen, hne,
+          Typed.field, Typed.asStr, Option.getD_some, ho, hfs']
+        cases flag <;> rfl
+  | 2, _ =>
+    split at h
+    · cases h
+    · simp only [show ¬ ((2 : Nat) = 0) by decide, show ¬ ((2 : Nat) = 1) by decide, if_false] at h
+      split at h
+      · cases h
+      · rename_i hfs
+        have hfs' : fsOk path = true := by simpa using hfs
+        cases hmt : meaningTrig trig with
+        | none => simp [hmt] at h
+        | some td =>
+          cases hmr : meaningRoll path roll with
+          | none => simp [hmt, hmr] at h
+          | some rd =>
+            simp only [hmt, hmr, Option.some.injEq] at h
+            subst h
+            have hpol := constructPolicy_typed env ht path trig roll td rd hmt hmr
+            have hO := optField_typedOptEnc [(c!"path", .str path), (c!"append", typedOptBool flag)]
+              [(c!"policy", typedPolicy path trig roll)] enc rfl
+            simp only [List.cons_append, List.nil_append] at hO
+            have hne1 : ¬ (c!"rolling_file" = c!"console") := by decide
+            have hne2 : ¬ (c!"rolling_file" = c!"file") := by decide
+            have hpf : (Typed.record [(c!"path", .str path), (c!"append", typedOptBool flag),
+                (c!"encoder", typedOptEnc enc), (c!"policy", typedPolicy path trig roll)]).field (c!"policy")
+                = some (typedPolicy path trig roll) := by
+              simp [Typed.field, tlookup]
+            simp only [appenderOutcome, typedApp, tlookup, if_true, Typed.asList, hfm, hfe, filterErrs, kindName,
+              typedBody, show ¬ ((2 : Nat) = 0) by decide, show ¬ ((2 : Nat) = 1) by decide, if_false,
+              constructAppender, hO, hE, Outcome.andThen, hne1, hne2, hpf, hpol, ho]
+            cases flag <;> simp [Typed.field, tlookup, Typed.asStr, Typed.optField, typedOptBool, Typed.asBool, hfs']
+
+/-! ### the document -/
+
+theorem appenderEntryS_live : appenderEntryS = .lazy appenderLazyS := rfl
+
+theorem mapEntries_apps (ss : Bool) (as : List AppL) (h : ∀ a ∈ as, wfApp a) :
+    mapEntries (fun v => interp ss appenderEntryS v) (as.map (fun a => (a.name, renderApp a))) =
+      .ok (as.map (fun a => (a.name, typedApp a))) := by
+  induction as with
+  | nil => rfl
+  | cons a as ih =>
+    have h1 := interp_app ss a (h a List.mem_cons_self)
+    rw [← appenderEntryS_live] at h1
+    simp only [List.map_cons, mapEntries, h1, ih (fun x hx => h x (List.mem_cons_of_mem _ hx))]
+
+theorem appendersLossy_typed (env : Env) (henv : env.Benign) (as : List AppL)
+    (h : ∀ a ∈ as, a.kind ≤ 2 ∧ (meaningApp a).isSome) :
+    appendersLossy env (as.map (fun a => (a.name, typedApp a))) =
+      .ok (as.filterMap meaningApp, as.flatMap filterErrs) := by
+  induction as with
+  | nil => rfl
+  | cons a as ih =>
+    obtain ⟨hk, hs⟩ := h a List.mem_cons_self
+    obtain ⟨d, hd⟩ := Option.isSome_iff_exists.mp hs
+    simp only [List.map_cons, appendersLossy, appenderOutcome_typed env henv a d hk hd,
+      ih (fun x hx => h x (List.mem_cons_of_mem _ hx)), List.filterMap_cons, hd, List.flatMap_cons]
+
+theorem meaning_errors_wf (as : List AppL) (h : ∀ a ∈ as, (meaningApp a).isSome) :
+    as.flatMap (fun a => ((a.filters.getD []).filter (fun t => (parseLevel t).isNone)).map
+        (fun _ => LoadErr.filter a.name) ++ (if (meaningApp a).isNone then [LoadErr.appender a.name] else []))
+      = as.flatMap filterErrs := by
+  induction as with
+  | nil => rfl
+  | cons a as ih =>
+    have hs := h a List.mem_cons_self
+    have : (meaningApp a).isNone = false := by
+      cases hm : meaningApp a with
+      | none => rw [hm] at hs; cases hs
+      | some d => rfl
+    simp only [List.flatMap_cons, this, Bool.false_eq_true, if_false, List.append_nil,
+      ih (fun x hx => h x (List.mem_cons_of_mem _ hx)), filterErrs]
+
+def typedDoc (cfg : LogicalConfig) : Typed :=
+  .record [(c!"refresh_rate", match cfg.refresh.bind parseDuration with
+                              | some n => .just (.duration n)
+                              | none => .nothing),
+           (c!"root", (cfg.root.map typedRoot).getD rootDefault),
+           (c!"appenders", .dict (cfg.appenders.map (fun a => (a.name, typedApp a)))),
+           (c!"loggers", .dict (cfg.loggers.map (fun l => (l.name, typedLogger l))))]
+
+/-- well-formed logical configuration: the texts that are parsed while the DOCUMENT is typed (root
+and logger levels, refresh rate) are acceptable, and every appender section is well-formed -/
+structure WF (cfg : LogicalConfig) : Prop where
+  loggers : ∀ l ∈ cfg.loggers, (parseLevel l.level).isSome
+  root : ∀ r t, cfg.root = some r → r.level = some t → (parseLevel t).isSome
+  refresh : ∀ t, cfg.refresh = some t → (parseDuration t).isSome
+  apps : ∀ a ∈ cfg.appenders, wfApp a
+
+theorem interpLeaf_duration {t : List Char} {n : Nat} (h : parseDuration t = some n) :
+    interpLeaf .duration (.str t) = .ok (.duration n) := by
+  simp only [parseDuration] at h
+  simp only [interpLeaf]
+  cases hp : parseDurationFull t with
+  | ok a b => rw [hp] at h; simp only [Option.some.injEq] at h; simp [h]
+  | err => rw [hp] at h; cases h
+  | panic => rw [hp] at h; cases h
+
+theorem interp_doc (ss : Bool) (cfg : LogicalConfig) (hwf : WF cfg) :
+    interp ss docS (render cfg) = .ok (typedDoc cfg) := by
   obtain ⟨refresh, root, loggers, appenders⟩ := cfg
-  simp only at happ hl hroot hrr
-  subst happ
+  obtain ⟨hl, hroot, hrr, happ⟩ := hwf
+  simp only at hl hroot hrr happ
   have hlg := mapEntries_loggers ss loggers hl
-  have hlo := loggers_of_typed loggers
+  have hap := mapEntries_apps ss appenders happ
+  have hlive : appenderEntrySWith appenderEnvelopeLazy = appenderEntryS := rfl
   cases refresh with
   | none =>
     cases root with
     | none =>
-      cases loggers with
-      | nil => rfl
-      | cons l ls =>
-        simp only [List.map_cons] at hlg hlo
-        simp [loadRaw, render, optEntry, docS, docSWith, interp, interpFields, unknownKey, fieldNames, dfl, optF,
-          lookup, hlg, rawLoad, appendersLossy, Typed.field, Typed.optField, tlookup, Typed.asDict,
-          rootDefault, Typed.asLevel, Typed.asList, Typed.strs, meaning, loggerOf_typed]
+      cases loggers <;> cases appenders <;>
+        (try simp only [List.map_cons] at hlg hap) <;>
+        simp [render, optEntry, docS, docSWith, hlive, interp, interpFields, unknownKey, fieldNames, dfl, optF,
+          lookup, hlg, hap, typedDoc]
     | some r =>
       have hr := interp_root ss r (fun t ht => hroot r t rfl ht)
-      cases loggers with
-      | nil =>
-        simp [loadRaw, render, optEntry, docS, docSWith, interp, interpFields, unknownKey, fieldNames, dfl, optF,
-          lookup, hr, rawLoad, appendersLossy, Typed.field, Typed.optField, tlookup, Typed.asDict,
-          meaning, typedRoot, Typed.asLevel, Typed.asList, strs_names]
-      | cons l ls =>
-        simp only [List.map_cons] at hlg hlo
-        simp [loadRaw, render, optEntry, docS, docSWith, interp, interpFields, unknownKey, fieldNames, dfl, optF,
-          lookup, hr, hlg, rawLoad, appendersLossy, Typed.field, Typed.optField, tlookup, Typed.asDict,
-          meaning, typedRoot, Typed.asLevel, Typed.asList, strs_names, loggerOf_typed]
+      cases loggers <;> cases appenders <;>
+        (try simp only [List.map_cons] at hlg hap) <;>
+        simp [render, optEntry, docS, docSWith, hlive, interp, interpFields, unknownKey, fieldNames, dfl, optF,
+          lookup, hlg, hap, hr, typedDoc]
   | some t =>
     obtain ⟨n, hn⟩ := Option.isSome_iff_exists.mp (hrr t rfl)
-    have hrf : interpLeaf .duration (.str t) = .ok (.duration n) := by simp only [interpLeaf, hn]
+    have hrf := interpLeaf_duration hn
     cases root with
     | none =>
-      cases loggers with
-      | nil =>
-        simp [loadRaw, render, optEntry, docS, docSWith, interp, interpFields, unknownKey, fieldNames, dfl, optF,
-          lookup, hrf, rawLoad, appendersLossy, Typed.field, Typed.optField, tlookup, Typed.asDict,
-          rootDefault, Typed.asLevel, Typed.asList, Typed.strs, meaning, hn]
-      | cons l ls =>
-        simp only [List.map_cons] at hlg hlo
-        simp [loadRaw, render, optEntry, docS, docSWith, interp, interpFields, unknownKey, fieldNames, dfl, optF,
-          lookup, hrf, hlg, rawLoad, appendersLossy, Typed.field, Typed.optField, tlookup, Typed.asDict,
-          rootDefault, Typed.asLevel, Typed.asList, Typed.strs, meaning, loggerOf_typed, hn]
+      cases loggers <;> cases appenders <;>
+        (try simp only [List.map_cons] at hlg hap) <;>
+        simp [render, optEntry, docS, docSWith, hlive, interp, interpFields, unknownKey, fieldNames, dfl, optF,
+          lookup, hlg, hap, hrf, hn, typedDoc]
     | some r =>
       have hr := interp_root ss r (fun t ht => hroot r t rfl ht)
-      cases loggers with
-      | nil =>
-        simp [loadRaw, render, optEntry, docS, docSWith, interp, interpFields, unknownKey, fieldNames, dfl, optF,
-          lookup, hrf, hr, rawLoad, appendersLossy, Typed.field, Typed.optField, tlookup, Typed.asDict,
-          meaning, typedRoot, Typed.asLevel, Typed.asList, strs_names, hn]
-      | cons l ls =>
-        simp only [List.map_cons] at hlg hlo
-        simp [loadRaw, render, optEntry, docS, docSWith, interp, interpFields, unknownKey, fieldNames, dfl, optF,
-          lookup, hrf, hr, hlg, rawLoad, appendersLossy, Typed.field, Typed.optField, tlookup, Typed.asDict,
-          meaning, typedRoot, Typed.asLevel, Typed.asList, strs_names, loggerOf_typed, hn]
+      cases loggers <;> cases appenders <;>
+        (try simp only [List.map_cons] at hlg hap) <;>
+        simp [render, optEntry, docS, docSWith, hlive, interp, interpFields, unknownKey, fieldNames, dfl, optF,
+          lookup, hlg, hap, hr, hrf, hn, typedDoc]
+
+theorem rawLoad_typedDoc (env : Env) (henv : env.Benign) (cfg : LogicalConfig)
+    (h : ∀ a ∈ cfg.appenders, a.kind ≤ 2 ∧ (meaningApp a).isSome) :
+    rawLoad env (typedDoc cfg) = .ok (meaning cfg) := by
+  have hA := appendersLossy_typed env henv cfg.appenders h
+  have hE := meaning_errors_wf cfg.appenders (fun a ha => (h a ha).2)
+  have hL := loggers_of_typed cfg.loggers
+  obtain ⟨refresh, root, loggers, appenders⟩ := cfg
+  simp only at hA hE hL
+  simp only [Option.isNone_iff_eq_none] at hE
+  simp only [rawLoad, typedDoc, Typed.field, tlookup, if_true, Typed.asDict, hA]
+  cases root <;> cases hd : refresh.bind parseDuration <;>
+    simp [meaning, hd, hE, hL, hA, Typed.optField, Typed.field, tlookup, rootDefault, typedRoot, Typed.asLevel,
+      Typed.asList, strs_names, show Typed.strs [] = [] from rfl]
+
+/-- a logical configuration rendered into a document (canonical key order, every subset of
+optional keys omitted) loads — lossy pipeline up to the builder input — to exactly its meaning -/
+theorem loadRaw_render (env : Env) (henv : env.Benign) (ss : Bool) (cfg : LogicalConfig) (hwf : WF cfg)
+    (hb : ∀ a ∈ cfg.appenders, (meaningApp a).isSome) :
+    loadRaw env ss (render cfg) = .ok (meaning cfg) := by
+  simp only [loadRaw, interp_doc ss cfg hwf]
+  exact rawLoad_typedDoc env henv cfg (fun a ha => ⟨(hwf.apps a ha).1, hb a ha⟩)
 
 end Log4rs.ConfigDoc
